@@ -188,51 +188,58 @@ def tok(v):
     return "[ " + "".join(tok(x) + " " for x in v[1]) + "]"
 
 
-def show_py(x):
-    """render what TlSchemas.deserialize returned in the driver's format"""
+def show_py(x, ctor=None):
+    """render what TlSchemas.deserialize returned in the driver's format.  Strings are ambiguous in the library's
+    output (int128/int256 come back as hex str, TL strings as str), so the walk is typed by the schema: the constructor
+    is the one named by '@type', or - for elements of vectors of bare types, which carry no '@type' - the element type
+    of the enclosing field (ctor)."""
     if isinstance(x, dict):
-        t = by_name_lib().get(x.get("@type"))
-        raw = {a["field"] for a in t["args"] if (a["type"][0] == "fixed" and a["type"][2] in ("int128", "int256")) or
-               (a["type"][0] == "vector" and a["type"][1][0] == "fixed" and a["type"][1][2] in ("int128", "int256"))} if t else None
+        t = by_name_lib().get(x.get("@type")) or ctor
+        types = {a["field"]: a["type"] for a in t["args"]} if t else {}
         return "{ " + x.get("@type", "-") + " " + "".join(
-            f"{k} {show_field(k, v, raw)} " for k, v in x.items() if k != "@type") + "}"
-    if isinstance(x, bool):
-        return "T" if x else "F"
-    if isinstance(x, int):
-        return "i:" + (format(x, "x") if x >= 0 else "-" + format(-x, "x"))
-    if isinstance(x, (bytes, bytearray)):
-        return "b:" + (bytes(x).hex() or "-")
-    if isinstance(x, str):
-        return "?str:" + x
-    if x is None:
+            f"{k} {show_typed(v, types.get(k))} " for k, v in x.items() if k != "@type") + "}"
+    return show_typed(x, None)
+
+
+def show_typed(v, ty):
+    if isinstance(v, bool):
+        return "T" if v else "F"
+    if isinstance(v, int):
+        return "i:" + (format(v, "x") if v >= 0 else "-" + format(-v, "x"))
+    if isinstance(v, (bytes, bytearray)):
+        return "b:" + (bytes(v).hex() or "-")
+    if v is None:
         return "n"
-    if isinstance(x, dict):
-        return "{ " + x.get("@type", "-") + " " + "".join(f"{k} {show_field(k, v)} " for k, v in x.items() if k != "@type") + "}"
-    if isinstance(x, list):
-        return "[ " + "".join(show_py(v) + " " for v in x) + "]"
-    return "!" + type(x).__name__
+    if isinstance(v, str):
+        if ty is not None and ty[0] == "fixed":
+            return "x:" + (v or "-")                 # int128 / int256
+        if ty is not None and ty[0] in ("string", "bytes"):
+            return "s:" + (v.encode().hex() or "-")
+        # no type information (should not happen): fall back to the content
+        is_raw = len(v) % 2 == 0 and len(v) >= 32 and all(c in "0123456789abcdef" for c in v)
+        return ("x:" + v) if is_raw else "s:" + (v.encode().hex() or "-")
+    if isinstance(v, dict):
+        sub = None
+        if ty is not None and ty[0] == "bare":
+            sub = by_name_lib().get(ty[1])
+        return show_py(v, sub)
+    if isinstance(v, list):
+        if ty is not None and ty[0] == "vector":
+            el = ty[1]
+            sub = by_name_lib().get(el[1]) if el[0] == "bare" else None
+            return "[ " + "".join((show_py(e, sub) if isinstance(e, dict) else show_typed(e, el)) + " " for e in v) + "]"
+        # a bytes field whose payload parsed as several objects
+        return "[ " + "".join(show_py(e) + " " for e in v) + "]"
+    return "!" + type(v).__name__
 
 
-HEXFIELDS = None
+def show_field(k, v, raw=None):
+    return show_typed(v, None)
 
 
 def by_name_lib():
     """name -> constructor as the library resolves names (the LAST constructor with that name wins)"""
     return {t["name"]: t for t in table()["table"]}
-
-
-def show_field(k, v, raw=None):
-    # int128/int256 come back as hex str, text strings as str: use the schema when the object names its constructor,
-    # otherwise (elements of vectors of bare types carry no '@type') fall back to the content
-    if isinstance(v, str):
-        is_raw = (k in raw) if raw is not None else (len(v) % 2 == 0 and len(v) >= 32 and all(c in "0123456789abcdef" for c in v))
-        if is_raw:
-            return "x:" + (v or "-")
-        return "s:" + (v.encode().hex() or "-")
-    if isinstance(v, list) and any(isinstance(e, str) for e in v):
-        # elements of a vector of int128/int256 (hex str) or of string (str): typed by the field, like a scalar
-        return "[ " + "".join(show_field(k, e, raw) + " " for e in v) + "]"
-    return show_py(v)
 
 
 _schemas = None
@@ -312,6 +319,26 @@ def run(ctx):
     impl, model = ctx.correspond("serialize", vals, py_ser, lambda v: "tl_ser " + tok(v), lambda v: len(v[2]) > 0)
     blobs = [a[3:] for a in impl if a.startswith("ok ")]
     idec, mdec = ctx.correspond("deserialize", blobs, py_des, lambda h: "tl_des " + h, lambda h: len(h) > 8)
+    # malformed / ill-typed input: truncations, byte flips, extensions, negative flag words (model and code must agree on
+    # Ok-vs-Err and on every Ok payload; nothing is demanded of the results themselves)
+    bad = []
+    for h in blobs:
+        if h == "-" or rng.random() > ctx.n(0.15, 0.5):
+            continue
+        b = bytearray(bytes.fromhex(h))
+        k = rng.randrange(4)
+        if k == 0 and len(b) > 4:
+            b = b[:rng.randrange(4, len(b))]
+        elif k == 1 and len(b) > 4:
+            b[rng.randrange(4, len(b))] = rng.randrange(256)
+        elif k == 2 and len(b) >= 8:
+            # (a long-form length prefix claiming 16 MB is exercised on the implementation in C19; the model keeps offsets in
+            # unary nat and needs minutes for it, so the claim used here is 64 KB)
+            b[4:8] = rng.choice([b"\xff\xff\xff\xff", b"\xfe\xff\xff\x00", b"\x00\x00\x00\x80", b"\xff\xff\xff\x7f"])
+        else:
+            b += rng.randbytes(rng.randrange(1, 9))
+        bad.append(bytes(b).hex())
+    ctx.correspond("deserialize-malformed", bad, py_des, lambda h: "tl_des " + h, lambda h: len(h) > 8)
     # oracle: framing + round trip on supported constructors
     n = 0
     lib = by_name_lib()
